@@ -130,11 +130,14 @@ void eb_norm_sim(eb_t *r, const eb_t *t, int n) {
 		fb_inv_sim(a, (const fb_t *)a, n);
 
 		for (int i = 0; i < n; i++) {
+			/* The identity stays the identity, whatever its flag says. */
+			if (eb_is_infty(t[i])) {
+				eb_set_infty(r[i]);
+				continue;
+			}
 			fb_copy(r[i]->x, t[i]->x);
 			fb_copy(r[i]->y, t[i]->y);
-			if (!eb_is_infty(t[i])) {
-				fb_copy(r[i]->z, a[i]);
-			}
+			fb_copy(r[i]->z, a[i]);
 			r[i]->coord = t[i]->coord;
 		}
 #if EB_ADD == PROJC || !defined(STRIP)
